@@ -1,5 +1,5 @@
 //@unit sm2_key
-//@serves C03 C04 C05 C06
+//@serves C03 C04 C05 C06 C14 C19
 //@source gm-sm2/src/key.rs
 //@assume shim_concat2(a, b) == a ++ b; shim_ne_bytes / shim_u256_eq are (in)equality of byte strings / limb arrays (external_body shims whose body is the replaced std expression)
 //@assume rand::thread_rng().fill_bytes yields CSPRNG bytes: random_u256 is the only source of `csprng` facts (provenance predicate); the rejection loops terminate with probability 1 (exec_allows_no_decreases_clause)
@@ -195,6 +195,7 @@ impl Sm2PublicKey {
         }
     }
 
+//@props C05 C14
     #[verifier::exec_allows_no_decreases_clause]
     fn encrypt(&self, msg: &[u8], compressed: bool, model: Sm2Model) -> (res: Sm2Result<Vec<u8>>)
         requires pk_ok(*self), 1 <= msg@.len() < 0x1_0000_0000
@@ -272,11 +273,12 @@ impl Sm2PublicKey {
         }
     }
 
+//@props C03 C04
     fn verify(&self, id: Option<&'static str>, msg: &[u8], sig: &[u8]) -> (res: Sm2Result<()>)
         requires pk_ok(*self), msg@.len() < 0x1000_0000_0000_0000,
             id is Some ==> str_bytes(id->Some_0).len() < 0x1000_0000_0000_0000, str_bytes(DEFAULT_ID).len() < 0x1000_0000_0000_0000,
             // known finding D34 (no witness computable): e + x1 can exceed 2^256 + n - 1 and is then reduced wrongly
-            s_e(s_id(id), abs(self.point), msg@) < r256() + N() - P(),
+            s_e(s_id(id), abs(self.point), msg@) < r256() + N() - P(), //@carveout D34
         ensures res is Ok ==> sig@.len() == 64 && 8 * s_id(id).len() <= 65535
             && valid_sig(abs(self.point), s_e(s_id(id), abs(self.point), msg@),
                          be_val(sig@.subrange(0, 32)), be_val(sig@.subrange(32, 64))),
@@ -289,9 +291,10 @@ impl Sm2PublicKey {
         self.verify_raw(&digest[..], &self.point, sig)
     }
 
+//@props C03 C04
     fn verify_raw(&self, digest: &[u8], pk: &Point, sig: &[u8]) -> (res: Sm2Result<()>)
         requires valid(*pk), val4(pk.z@) != 0,
-            digest@.len() == 32 ==> be_val(digest@) < r256() + N() - P(),   // known finding D34, see verify
+            digest@.len() == 32 ==> be_val(digest@) < r256() + N() - P(), //@carveout D34
         ensures res is Ok ==> sig@.len() == 64 && digest@.len() == 32
             && valid_sig(abs(*pk), be_val(digest@), be_val(sig@.subrange(0, 32)), be_val(sig@.subrange(32, 64))),
     {
@@ -376,11 +379,12 @@ impl Sm2PrivateKey {
         Ok(private_key)
     }
 
+//@props C03 C14
     fn sign(&self, id: Option<&'static str>, msg: &[u8]) -> (res: Sm2Result<Vec<u8>>)
         requires sk_ok(*self), msg@.len() < 0x1000_0000_0000_0000,
             id is Some ==> str_bytes(id->Some_0).len() < 0x1000_0000_0000_0000, str_bytes(DEFAULT_ID).len() < 0x1000_0000_0000_0000,
             // known finding D34 (no witness computable): e + x1 >= 2n is reduced only once, r would not be canonical
-            s_e(s_id(id), abs(self.public_key.point), msg@) < 2 * N() - P(),
+            s_e(s_id(id), abs(self.public_key.point), msg@) < 2 * N() - P(), //@carveout D34
         ensures
             res is Ok <==> 8 * s_id(id).len() <= 65535,
             res is Ok ==> res->Ok_0@.len() == 64 && (exists|k: Seq<u64>| #[trigger] csprng(k) && sig_from_nonce(val4(k), val4(self.d@),
@@ -395,10 +399,11 @@ impl Sm2PrivateKey {
         self.sign_raw(&digest[..], &self.d)
     }
 
+//@props C03 C14
     #[verifier::exec_allows_no_decreases_clause]
     fn sign_raw(&self, digest: &[u8], sk: &U256) -> (res: Sm2Result<Vec<u8>>)
         requires 1 <= val4(sk@) <= N() - 2,
-            digest@.len() == 32 ==> be_val(digest@) < 2 * N() - P(),   // known finding D34, see sign
+            digest@.len() == 32 ==> be_val(digest@) < 2 * N() - P(), //@carveout D34
         ensures res is Ok <==> digest@.len() == 32,
             res is Ok ==> res->Ok_0@.len() == 64 && (exists|k: Seq<u64>| #[trigger] csprng(k) && sig_from_nonce(val4(k), val4(sk@), be_val(digest@),
                 be_val(res->Ok_0@.subrange(0, 32)), be_val(res->Ok_0@.subrange(32, 64)))),
@@ -450,6 +455,7 @@ impl Sm2PrivateKey {
             return Ok(sig);
         }
     }
+//@props C05 C06
     fn decrypt(
         &self,
         ciphertext: &[u8],
